@@ -26,6 +26,21 @@ use std::time::{Duration, Instant};
 use tree::*;
 
 const F_ALLOC: &str = "C14-jacoco-branch-vector-alloc";
+/// named matcher: the report has two `<method>` elements that yield the same function name
+/// `Class#name` on the same file record (same class, different `desc`: overloads) whose
+/// (line, executed) differ, and parse_jacoco_xml_report returns the report's meaning with, for each
+/// such name, ONE function carrying the values of the LAST of them (parser.rs
+/// parse_jacoco_report_class: `functions.insert(format!("{}#{}", class_name, name), …)`, `desc` not read).
+/// Property clause: "Every <method> of every <class> yields a function named Class#method …
+/// executed iff its METHOD counter has covered > 0".
+const F_OVERLOAD: &str = "C10-overloaded-methods-collapse";
+/// named matcher: every element of the report is well formed and DTD-valid, some `<method>` has no
+/// `line` attribute (report.dtd: #IMPLIED), and parse_jacoco_xml_report returns
+/// Err(InvalidRecord("Attribute line not found")) for the whole report (parser.rs
+/// parse_jacoco_report_class: `get_xml_attribute(parser, e, "line")?`).
+const F_NOLINE: &str = "C10-method-without-line-rejects-report";
+/// at most this many generated cases are reported per named finding (plus its corpus witness)
+const FINDING_CASES: u32 = 2;
 /// an in-process parse that takes longer than this is reported by the watchdog
 const INPROC_LIMIT_S: u64 = 10;
 
@@ -208,14 +223,122 @@ fn case_json(c: &Case, model: &str) -> Value {
            "spec": c.spec, "impl": c.imp, "model": model})
 }
 
+/// what the CODE is expected to return (model-free): a `<method>` without `line` rejects the
+/// report; a repeated function name keeps its last method. What the PROPERTY says of those two
+/// cases is evaluated by `property_verdict`.
 fn spec_of(doc: &Doc) -> String {
+    if has_lineless_method(doc) {
+        return "err InvalidRecord".to_string();
+    }
     format!("ok {}", show_results(&sem(doc))).trim_end().to_string()
+}
+
+enum Verdict {
+    Holds,
+    /// the property is violated in the way a named matcher describes
+    Finding(&'static str, String),
+    /// violated in some other way
+    Violated,
+}
+
+/// the property oracle on the implementation's own output for `doc`
+fn property_verdict(doc: &Doc, imp: &str) -> Verdict {
+    if has_lineless_method(doc) {
+        // a DTD-valid report: the property promises a result ("every <method> … yields a function")
+        return if imp == "err InvalidRecord" {
+            Verdict::Finding(
+                F_NOLINE,
+                "a well-formed, DTD-valid report in which a <method> has no `line` attribute (report.dtd: #IMPLIED; JaCoCo omits it for classes without debug information) is rejected as a whole: Err(InvalidRecord)".into(),
+            )
+        } else if imp.starts_with("ok") {
+            Verdict::Holds
+        } else {
+            Verdict::Violated
+        };
+    }
+    if let Some(c) = overload_conflict(doc) {
+        // no output can give both methods their own function under one name
+        return if imp == spec_of(doc) {
+            Verdict::Finding(
+                F_OVERLOAD,
+                format!("overloaded methods collapse into one function carrying the LAST one's line/executed: {}", c),
+            )
+        } else {
+            Verdict::Violated
+        };
+    }
+    if imp == spec_of(doc) {
+        Verdict::Holds
+    } else {
+        Verdict::Violated
+    }
+}
+
+fn report_finding(rep: &mut Report, id: &'static str, what: String, doc: &Doc, shrink: bool) {
+    let min = if shrink {
+        shrink_doc(doc, &mut |d| matches!(property_verdict(d, &run_impl(&render(d))), Verdict::Finding(i, _) if i == id))
+    } else {
+        doc.clone()
+    };
+    let toks = tokens(&lower(&min));
+    let xml = xml_of(&toks);
+    let imp = run_impl(&xml);
+    // describe the minimised case, not the one it came from
+    let what = match property_verdict(&min, &imp) {
+        Verdict::Finding(i, w) if i == id => w,
+        _ => what,
+    };
+    rep.fail(
+        "oracle",
+        Some(id),
+        what,
+        json!({"op": "finding.c10", "finding": id, "xml_hex": fhex(&xml), "xml": String::from_utf8_lossy(&xml),
+               "request": request_of(&events_of(&toks)), "impl": imp,
+               "spec": if id == F_NOLINE { "ok …: the method without `line` yields a function like every other" }
+                       else { "every <method> yields its own function: executed iff ITS METHOD counter has covered > 0" }}),
+    );
+}
+
+/// fixed witnesses of the two C10 finding candidates and of the capacity-overflow panic, run on the
+/// real parser and sent to the model like every other case
+fn corpus_findings(rep: &mut Report, cases: &mut Vec<Case>) {
+    let overload: &[u8] = b"<report name=\"r\"><package name=\"p\"><class name=\"p/A\" sourcefilename=\"A.java\"><method name=\"&lt;init&gt;\" desc=\"(I)V\" line=\"3\"><counter type=\"METHOD\" missed=\"0\" covered=\"1\"/></method><method name=\"&lt;init&gt;\" desc=\"()V\" line=\"7\"><counter type=\"METHOD\" missed=\"1\" covered=\"0\"/></method></class></package></report>";
+    let noline: &[u8] = b"<report name=\"r\"><package name=\"p\"><class name=\"p/A\" sourcefilename=\"A.java\"><method name=\"m\" desc=\"()V\"/></class></package></report>";
+    let big: &[u8] = b"<report name=\"r\"><package name=\"p\"><sourcefile name=\"A.java\"><line nr=\"1\" mi=\"0\" ci=\"0\" mb=\"0\" cb=\"18446744073709551615\"/></sourcefile></package></report>";
+    let mut last_wins = grcov::CovResult::default();
+    last_wins.functions.insert("A#<init>".to_string(), grcov::Function { start: 7, executed: false });
+    let want_overload = format!("ok {}", show_results(&[("p/A.java".to_string(), last_wins)])).trim_end().to_string();
+    for (name, xml, collapsed, id, what) in [
+        ("overload", overload, want_overload.as_str(), F_OVERLOAD,
+         "corpus witness (Lean: exOverload): <init>(I)V at line 3, executed, followed by <init>()V at line 7, not executed, is reported as ONE function A#<init>, line 7, not executed"),
+        ("noline", noline, "err InvalidRecord", F_NOLINE,
+         "corpus witness (Lean: exNoLine): <method name=\"m\" desc=\"()V\"/> (no `line`: class without debug information) makes the whole report Err(InvalidRecord)"),
+        ("big", big, "panic", F_ALLOC,
+         "corpus witness (Lean: exBig): cb=\"18446744073709551615\" makes `vec![true; cb as usize]` panic with 'capacity overflow' (the same allocation site as the memory finding; a crash, not only memory)"),
+    ] {
+        let imp = run_impl(xml);
+        rep.case(&format!("corpus.{} {}", name, fhex(xml)), true);
+        rep.count(&format!("corpus.{}.{}", name, imp.split(' ').take(2).collect::<Vec<_>>().join(" ")));
+        let events = qx_events(xml).unwrap_or_default();
+        if imp == collapsed {
+            rep.fail(
+                "oracle",
+                Some(id),
+                what.to_string(),
+                json!({"op": "finding.c10", "finding": id, "xml_hex": fhex(xml), "xml": String::from_utf8_lossy(xml),
+                       "request": request_of(&events), "impl": imp}),
+            );
+        } else {
+            rep.count(&format!("corpus.{}.absent", name));
+        }
+        cases.push(Case { stream: format!("corpus.{}", name), request: request_of(&events), xml: xml.to_vec(), spec: None, imp, child: false, timeout_ms: 0 });
+    }
 }
 fn render(doc: &Doc) -> Vec<u8> {
     xml_of(&tokens(&lower(doc)))
 }
 fn oracle_fails(doc: &Doc) -> bool {
-    run_impl(&render(doc)) != spec_of(doc)
+    matches!(property_verdict(doc, &run_impl(&render(doc))), Verdict::Violated)
 }
 
 fn self_check(rep: &mut Report, stream: &str, xml: &[u8], events: &[String]) {
@@ -233,10 +356,7 @@ fn self_check(rep: &mut Report, stream: &str, xml: &[u8], events: &[String]) {
 }
 
 fn check_oracle(rep: &mut Report, doc: &Doc, shrunk: &mut u32) -> bool {
-    let xml = render(doc);
-    let got = run_impl(&xml);
-    let want = spec_of(doc);
-    if got == want {
+    if !oracle_fails(doc) {
         return true;
     }
     let min = if *shrunk < 5 {
@@ -267,12 +387,12 @@ fn check_oracle(rep: &mut Report, doc: &Doc, shrunk: &mut u32) -> bool {
 
 pub fn run(rep: &mut Report) {
     rep.rule = "JaCoCo report trees (1-3 packages, 0-4 classes incl. nested / several per file / fallback file name, 0-4 \
-                methods with entity-worthy names, 0-3 sourcefiles, 0-8 lines with all (mb+cb>0, ci>0) combinations, groups, \
+                methods with entity-worthy names, overloaded (repeated) names in 1/4 of the further methods of a class, 1/150 without `line`, 0-3 sourcefiles, 0-8 lines with all (mb+cb>0, ci>0) combinations, groups, \
                 session info, counters at every level, comments/PI/CDATA/text) serialised with random attribute order, extra \
                 attributes, quotes, entity/charref escaping, empty-element vs start/end, prefixes, whitespace; each compared \
                 with the independent semantics (oracle) and with the Lean event model; plus a malformed stream (one \
                 tree-level mutation: dropped/duplicated/prefixed attributes, bad numbers, bad entities, duplicates, \
-                misplaced elements, stray end tags, cuts inside a tag or text, truncation outside and inside a package (the latter must be Err(Parse))) for the tie, and helper ties (unescape, \
+                misplaced elements, stray end tags, cb/mb >= 2^63 (capacity-overflow panic = the model's alloc outcome), cuts inside a tag or text, truncation outside and inside a package (the latter must be Err(Parse))) for the tie, and helper ties (unescape, \
                 parse number, is_jacoco via producer). non-trivial (well-formed) = >=1 class with >=1 method and >=1 \
                 sourcefile with both a branch line and a statement line; malformed cases count as non-trivial; distinct = \
                 distinct XML bytes"
@@ -303,6 +423,8 @@ pub fn run(rep: &mut Report) {
 
     let mut cases: Vec<Case> = vec![];
     let mut isj_samples: Vec<Vec<u8>> = vec![];
+    corpus_findings(rep, &mut cases);
+    let mut reported: std::collections::BTreeMap<&'static str, u32> = Default::default();
 
     // ---- truncation between elements inside a package: `err Parse` since 34e25d5 (in-process, under
     // the watchdog: a recurrence of the endless loop is reported by it as an oracle failure) ----------
@@ -390,8 +512,20 @@ pub fn run(rep: &mut Report) {
             rep.count("wf.record.duplicate_path_across_packages");
         }
         rep.count(&format!("wf.records.{}", results.len().min(6)));
-        if imp != spec {
-            check_oracle(rep, &doc, &mut shrunk);
+        let lineless = has_lineless_method(&doc);
+        match property_verdict(&doc, &imp) {
+            Verdict::Holds => {}
+            Verdict::Finding(id, what) => {
+                rep.count(&format!("wf.finding.{}", id));
+                let n = reported.entry(id).or_insert(0);
+                if *n < FINDING_CASES {
+                    *n += 1;
+                    report_finding(rep, id, what, &doc, true);
+                }
+            }
+            Verdict::Violated => {
+                check_oracle(rep, &doc, &mut shrunk);
+            }
         }
         if i % 40 == 0 && isj_samples.len() < 40 {
             isj_samples.push(xml.clone());
@@ -400,7 +534,8 @@ pub fn run(rep: &mut Report) {
             stream: "wellformed".into(),
             request: request_of(&events),
             xml,
-            spec: Some(spec),
+            // a report the parser is expected to reject carries no spec: the tie always speaks
+            spec: if lineless { None } else { Some(spec) },
             imp,
             child: false,
             timeout_ms: 0,
@@ -613,6 +748,21 @@ pub fn replay(rep: &mut Report, case: &Value) {
             rep.case(&fhex(&xml), true);
             if out != "err Parse" {
                 rep.fail("oracle", None, format!("EOF inside an element: expected 'err Parse', observed '{}' (limit {} ms)", out, t), case.clone());
+            }
+        }
+        "finding.c10" => {
+            // a recorded witness of a named finding: present as long as the parser answers the same
+            let xml = unhex(&s("xml_hex"));
+            let imp = run_impl(&xml);
+            rep.case(&fhex(&xml), true);
+            let id = match s("finding").as_str() {
+                x if x == F_OVERLOAD => Some(F_OVERLOAD),
+                x if x == F_NOLINE => Some(F_NOLINE),
+                x if x == F_ALLOC => Some(F_ALLOC),
+                _ => None,
+            };
+            if imp == s("impl") {
+                rep.fail("oracle", id, format!("the recorded witness still gives '{}'", imp), case.clone());
             }
         }
         "finding.alloc" => {
